@@ -4,6 +4,7 @@ from ._base import BuilderSystem, run_configs, replay_history
 from ..common import rf
 
 MSG = "spindle jam 42"
+LONG = "Traceback (most recent call last): " + "tool holder temperature sensor 7 reads 412 K; " * 12 + "ünïcode ∅ end"
 
 
 class C06System(BuilderSystem):
@@ -23,7 +24,7 @@ class C06System(BuilderSystem):
         return [
             ["tool_off"], ["power_off"], ["coolant_off"],
             ["emergency_halt", [MSG]], ["emergency_halt", [MSG, True]],
-            ["emergency_halt", [""]], ["emergency_halt", ["first line\nsecond line", True]], ["emergency_halt", ["   "]],
+            ["emergency_halt", [""]], ["emergency_halt", ["first line\nsecond line", True]], ["emergency_halt", ["   "]], ["emergency_halt", [LONG]],
             ["tool_on", ["clockwise", p1]], ["tool_on", ["counter", p2]],
             ["power_on", ["constant", p2]], ["power_on", ["dynamic", p1]],
             ["coolant_on", ["mist"]], ["coolant_on", ["flood"]],
